@@ -6,6 +6,10 @@ claimed = {
  "C02": ("handler body-reading programs (all/none/N bytes/PostBody) x StreamRequestBody x Expect: 100-continue accepted or rejected by ContinueHandler/ExpectHandler x polite and rude clients, bodies around the 8 KiB prefetch made of well-formed requests so any desync shows up as a dispatched smuggled request; transport segmentation and pauses", "6/C02"),
  "C09": ("the same request/response head (CRLF, bare-LF and mixed line endings, folds, leading empty line) followed by different continuations and arrival schedules (together, split by a pause, alone on an open connection) on several connections of one server, plus RequestHeader.Read/ResponseHeader.Read on bounded readers; same-outcome and answered-without-further-input oracles", "6/C09"),
  "C10": ("request histories per connection mixing HTTP/1.0 and 1.1, Connection token spellings and lists, handler SetConnectionClose / hand-set header, DisableKeepalive, MaxRequestsPerConn, CloseOnShutdown with a Shutdown task at a seeded time; per-response header-vs-socket oracle with closure observed on the simulated clock; client half: HostClient against a scripted server that says close and keeps the socket open", "6/C10"),
+ "C12": ("connection arrival/close/hijack/error schedules from 1-3 addresses against small Concurrency and MaxConnsPerIP, Serve and ServeConn modes, slow-task faults, adversarial pools; peak monitors evaluated by the scheduler at every step, rejection oracle, quiescence counters and a behavioural per-IP probe", "6/C12"),
+ "C13": ("worker pool driven through Serve with MaxWorkersCount 1-3 and short MaxIdleWorkerDuration: task census by spawn site at every scheduler step (bound), served-once/lost-connection oracle, idle retirement and no survivor after Stop, on the fake clock", "6/C13"),
+ "C14": ("per-connection ConnState sequences checked against the documented automaton for silent, partial, pipelined, erroneous, hijacked, timed-out and rejected connections (Serve and ServeConn, ReduceMemoryUsage on/off, MaxConnsPerIP), plus StateActive-needs-a-byte measured on the simulated transport", "6/C14"),
+ "C15": ("Shutdown at a seeded instant raced against slow handlers, idle keep-alive, silent, partial and pipelined connections at lock/atomic granularity: listener closed, Serve returned, no handler running, every started handler's response delivered, Done closed, idle connections not waited for; panics of server goroutines are violations", "6/C15"),
  "C33": ("PipeConns stream equality and Close semantics, InmemoryListener Dial/Accept/Close pairing, under seeded interleavings of writers, readers, deadlines and closers at every channel/select/mutex operation", "6/C33"),
 }
 na = {
